@@ -15,6 +15,9 @@ CLAIMED = {
     'C14': dict(design='DESIGN.md §3 C14', technique='deterministic simulation: seeded entry-point x version x allow_custom x input routing through real stores on a simulated disk; differential oracle against the direct parser + independent version-class and id-strictness oracles; ddmin replay',
                 text='Seeded search over every public entry point with a version parameter (parse_observable, memory store/source/sink construction, add, load_from_file, filesystem sink/store add, filesystem source/store get/all_versions/query, Environment.add) x {None,2.0,2.1} x allow_custom x inputs that separate the versions and the id strictness levels.',
                 note='Trusts: stix2.parse called with keyword arguments as the reference for acceptance (the property defines strictness relative to a direct parse); version base classes identify the version; own JSON normaliser.'),
+    'C18': dict(design='DESIGN.md §3 C18', technique='deterministic simulation: member sources as nodes, seeded partition of a population and attachment order/attach-detach schedule, navigation through every facade, list-model (union scan) oracle; ddmin replay',
+                text='Seeded search over partitions of a population (overlapping copies, different versions of one id on different members) over 2-4 member sources (MemoryStore, FileSystemStore on the simulated disk, static MemorySource), attachment orders, attach/detach histories and all navigation options, through composite, nested composite, Environment and plain-store facades, compared with a scan of the union.',
+                note='Trusts: own list model and filter evaluator; navigation answers are compared as sets of (id, version); composite filters only on version-constant properties and only for get/all_versions/query (the property does not say whether attached filters apply to navigation).'),
 }
 
 NA = {
